@@ -407,7 +407,12 @@ theorem lim_publishTail {O : String → Prop} (b X : B) (c : Cli) (r : PubReq) (
   extract_lets dupl s1 b1 bm
   have hs1 : s1.cid = s.cid ∧ s1.queue = s.queue := by simp only [s1]; split <;> exact ⟨rfl, rfl⟩
   have hb1 : Lim (fun x => x = r.conn) O b b1 := by
-    refine (h.trans (lim_setSess_same X c.cid s s1 hs hs1.1 hs1.2)).trans ?_
+    have hq : Lim (fun x => x = r.conn) O b ((X.setSess s1).pubDupQuota c r dupl) := by
+      unfold B.pubDupQuota
+      split
+      · exact lim_quotaBack _ _ _ rfl (h.trans (lim_setSess_same X c.cid s s1 hs hs1.1 hs1.2))
+      · exact h.trans (lim_setSess_same X c.cid s s1 hs hs1.1 hs1.2)
+    refine hq.trans ?_
     simp only [b1, B.pubRetain]
     split
     · split <;> exact lim_of_eq rfl rfl rfl rfl
